@@ -183,6 +183,7 @@ fn snapshot_not_in_chain(bk: &Path, chain: &[&Taken]) -> bool {
 }
 
 fn run_history(seed: u64, idx: usize, work: &Path, backups_per_history: usize) -> (Acc, Option<(PathBuf, Vec<Taken>, Cfg)>) {
+    kvh::panicrec::set_input(format!("{{\"c12_history\": {{\"seed\": {}, \"idx\": {}}}}}", seed, idx));
     let mut acc = Acc::default();
     let mut r = Rng::new(seed ^ (0xA5A5_0000 + idx as u64).wrapping_mul(0x9E37_79B9_7F4A_7C15));
     let root = work.join(format!("hist_{}", idx));
@@ -782,6 +783,7 @@ Eval vm_compute in {}.
 }
 
 fn main() {
+    kvh::panicrec::install();
     let args: Vec<String> = std::env::args().collect();
     let mut out = String::from("/verif/.cache/run/C12");
     let mut n = 8usize;
